@@ -659,7 +659,6 @@ def _geq_worker(cases):
 
 
 def run_geq(ctx, cases):
-    k = max(1, len(cases) // 64)
     order = sorted(cases, key=lambda c: -c[0] * c[1])
     chunks = [order[i::64] for i in range(64)]
     chunks = [c for c in chunks if c]
@@ -744,9 +743,10 @@ def run(ctx):
     ctx.set("seed_phase", dict(index=ctx.seed % 8, shift=SEED_PHASES[ctx.seed % 8][0],
                                factor=SEED_PHASES[ctx.seed % 8][1]))
     # (field, column, value class) coverage, measured
-    possible = len(FIELDS) * 5 * NA
+    # a scalar sits in one fixed column, an array element in any of the five
+    possible = len(SCALARS) * NA + (len(FIELDS) - len(SCALARS)) * 5 * NA
     ctx.set("field_column_class_triples_seen", len(triples))
-    ctx.set("field_column_class_triples_possible_upper_bound", possible)
+    ctx.set("field_column_class_triples_possible", possible)
     arr_fields = [FIELDS.index(n) for n in FIELDS if n not in SCALARS]
     seen_arr = len([t for t in triples if t[0] in arr_fields])
     ctx.set("array_field_column_class_triples_seen", seen_arr)
